@@ -77,24 +77,7 @@ func checkPoolFormulas(c *core.Ctx, rule string) {
 			}
 			return []interface{}{&bobj{val: r0, param: -1}, &bobj{val: r1, param: -1}}, true
 		}
-		var out []retEval
-		for _, r := range core.Returns(fn) {
-			if fn.Recover != nil && r.Block() == fn.Recover {
-				continue
-			}
-			paths, ok := core.PathsTo(r, 512)
-			if !ok {
-				return nil, false
-			}
-			for _, p := range paths {
-				ev := newPathEval(c, al, fn, p, 0)
-				ev.bindParams()
-				ev.hook, ev.tupleHook = hook, tupleHook
-				res := ev.run(r)
-				out = append(out, retEval{ret: r, ev: ev, res: res, conds: ev.conds()})
-			}
-		}
-		return out, len(out) > 0
+		return evalAll(c, al, fn, 512, func(ev *pathEval) { ev.hook, ev.tupleHook = hook, tupleHook })
 	}
 	param := func(fn *ssa.Function, i int) ratf { return al.atom("param", core.ParamName(fn.Params[i])) }
 	// the value a path returns in result slot i: (value, isNil, ok)
